@@ -380,6 +380,69 @@ def run_geom_case(ctx, case):
         for r in range(nrows))
     ctx.check("xyvalues", okx and oky, "xvalues-yvalues|centres", case,
               lambda: {"xvalues": xv[:5], "yvalues": yv[:5]})
+    # the arrays handed out belong to the caller: editing them (a common way of making
+    # relative coordinates) changes nothing for this grid, nor for another grid with
+    # the same axes
+    for ax in ("xvalues", "yvalues"):
+        got1 = getattr(gr, ax)
+        keep = np.array(got1, dtype=float, copy=True)
+        try:
+            got1 -= got1[-1] + 17.25
+            got1[...] = got1[::-1].copy()
+        except (ValueError, TypeError):
+            pass                                  # read-only result: fine
+        twin = Grid("twin", ncols, nrows, cellsize=gr.cellsize,
+                        xllcorner=gr.xllcorner, yllcorner=gr.yllcorner)
+        again, other = np.asarray(getattr(gr, ax), float), np.asarray(getattr(twin, ax),
+                                                                      float)
+        ctx.api("xvalues/yvalues", 3)
+        ctx.check("xyvalues.owned-by-caller", bool(np.array_equal(again, keep)) and
+                  bool(np.array_equal(other, keep)),
+                  "xvalues-yvalues|changed-by-editing-an-earlier-result", case,
+                  lambda: {"axis": ax, "first": keep[:4], "after_edit": again[:4],
+                           "same_axes_other_grid": other[:4]})
+
+
+def run_integer_case(ctx, case):
+    """grids whose origin and cell size are whole numbers (metres), queried with points
+    held in integer arrays (survey coordinates, pixel indices): every point that is not
+    on a grid line has one exact answer"""
+    Grid = G()
+    nrows, ncols = int(case["nrows"]), int(case["ncols"])
+    xll, yll, csz = int(case["xll"]), int(case["yll"]), int(case["csz"])
+    rng = np.random.default_rng(int(case["seed"]))
+    dt = [np.int64, np.int32, np.int16, np.uint16, np.int64][int(case["seed"]) % 5]
+    gr = Grid("g", ncols, nrows, cellsize=[csz, float(csz)][int(case["seed"]) % 2],
+              xllcorner=xll, yllcorner=yll)
+    g = Geom(nrows, ncols, float(xll), float(yll), float(csz))
+    if np.iinfo(dt).min == 0 and min(xll, yll) - 2 * csz < 0:
+        dt = np.int32                   # an unsigned type cannot hold this window
+    lo = np.iinfo(dt).min
+    px = rng.integers(max(lo, xll - 2 * csz), xll + (ncols + 2) * csz + 1, size=80)
+    py = rng.integers(max(lo, yll - 2 * csz), yll + (nrows + 2) * csz + 1, size=80)
+    pts = np.column_stack([px, py]).astype(dt)
+    ctx.evaluated()
+    ctx.tag("integer-points")
+    ctx.api("coord2cell")
+    try:
+        got = np.asarray(gr.coord2cell(pts))
+    except Exception as e:
+        ctx.check("coord2cell.integer-points.runs", False,
+                  "coord2cell|raises-on-integer-points", case, {"exc": repr(e)[:200]})
+        return
+    bad = None
+    for (x, y), c in zip(pts.tolist(), got.tolist()):
+        if (x - xll) % csz == 0 or (y - yll) % csz == 0:
+            continue                               # on a grid line: not judged
+        exp, _ = g.locate(x, y)
+        if exp < 0:
+            ctx.tag("integer-points:outside")
+        if int(c) != exp and bad is None:
+            bad = (x, y, int(c), exp)
+        ctx.nontrivial("intpt", nrows, ncols, xll, yll, csz, x, y)
+    ctx.check("coord2cell.integer-points", bad is None,
+              "coord2cell|integer-points-on-integer-grid", case,
+              lambda: {"x,y,got,expected": bad, "dtype": np.dtype(dt).name})
 
 
 def run_huge_grid(ctx):
@@ -435,9 +498,18 @@ def run(ctx):
         run_geom_case(ctx, case)
         if it % 15 == 0:
             ctx.sample(case)
+        if it % 2 == 0:
+            run_integer_case(ctx, {"kind": "intgeom", "nrows": int(rng.integers(1, 12)),
+                                   "ncols": int(rng.integers(1, 12)),
+                                   "xll": int(rng.integers(-3, 200)),
+                                   "yll": int(rng.integers(-60, 60)),
+                                   "csz": [1, 2, 5, 10, 30, 2, 3][it // 2 % 7],
+                                   "seed": int(rng.integers(0, 2 ** 31))})
 
 
 def replay(ctx, case):
     if case.get("kind") == "huge":
         return run_huge_grid(ctx)
+    if case.get("kind") == "intgeom":
+        return run_integer_case(ctx, case)
     run_geom_case(ctx, case)
